@@ -547,7 +547,7 @@ class FFile:
         from .c06 import Seg
 
         self.fs, self.p, self.mode = fs, str(p), mode
-        if "w" in mode:
+        if "w" in mode or ("a" in mode and self.p not in fs.files):
             if FPath(self.p).parent.p not in fs.dirs:
                 raise FileNotFoundError(self.p)
             fs.files[self.p] = Seg()
@@ -674,6 +674,9 @@ def h_sink_finalise(nparts, parts_base, keep_parts):
             os.makedirs(scratch, exist_ok=True)
             dst = root + "/out/result.tif"
             sink = fsm.MPUFileSink(dst, parts_base=scratch if parts_base else None)
+            if Bool("destination_exists_before"):
+                with open(dst, "wb") as f_:
+                    f_.write(b"\xff" * Int("stale_size", 0))
             blobs = [bytes(((k + 1) * 41 + i) % 251 for i in range(sizes[k])) for k in range(nparts)]
             receipts = [sink(ids[k], blobs[k]) for k in range(nparts)]
             out = sink.finalise(receipts, keep_parts=keep_parts)
@@ -694,6 +697,8 @@ def h_sink_finalise(nparts, parts_base, keep_parts):
     FPath.fs = fs
     dst = "/out/result.tif"
     sink = fsm.MPUFileSink(dst, parts_base="/scratch" if parts_base else None)
+    if bool(Bool("destination_exists_before")):  # forks: a stale file from an earlier export
+        fs.files[dst] = Seg(10**9, 10**9 + Int("stale_size", 0))
     pos = 0
     receipts = []
     segs = []
